@@ -8,7 +8,9 @@ import (
 	"fmt"
 	"reflect"
 	"sort"
+	"strconv"
 	"strings"
+	"sync"
 
 	"github.com/zerx-lab/wordZero/pkg/style"
 )
@@ -19,8 +21,8 @@ type StyleDef struct {
 	ID      string   `json:"id"`
 	Idx     int      `json:"idx"` // value code (0..11), distinct per style of a case
 	Type    string   `json:"type"`
-	BasedOn string   `json:"based_on,omitempty"` // "" = no w:basedOn
-	Elems   []string `json:"elems"`              // subset of ElemNames
+	BasedOn string   `json:"based_on,omitempty"`  // "" = no w:basedOn
+	Elems   []string `json:"elems"`               // subset of ElemNames
 	EmptyP  bool     `json:"empty_ppr,omitempty"` // paragraph properties present although no paragraph element is set
 	EmptyR  bool     `json:"empty_rpr,omitempty"`
 	Via     string   `json:"via"` // add: literal + AddStyle; custom: CreateCustomStyle then properties; quick: QuickStyleAPI.CreateQuickStyle
@@ -30,6 +32,7 @@ type Case struct {
 	Predefined bool       `json:"predefined"` // keep the predefined registry (else it is emptied first)
 	Styles     []StyleDef `json:"styles"`     // in registration order
 	Queries    []string   `json:"queries"`
+	Excluded   string     `json:"excluded,omitempty"` // generator note: the cyclic graph mode that was drawn but replaced while the cycle finding is open
 }
 
 var ParaElems = []string{"spacing", "indentation", "alignment", "borders", "shading", "keepNext", "keepLines", "pageBreak", "outlineLevel", "snapToGrid"}
@@ -226,6 +229,27 @@ func (d StyleDef) quickConfig() style.QuickStyleConfig {
 // ---------------------------------------------------------------------------------------------
 // observers
 
+type fieldInfo struct {
+	idx  int
+	name string
+}
+
+var fieldCache sync.Map // reflect.Type -> []fieldInfo (XMLName left out)
+
+func fieldsOf(t reflect.Type) []fieldInfo {
+	if f, ok := fieldCache.Load(t); ok {
+		return f.([]fieldInfo)
+	}
+	var out []fieldInfo
+	for i := 0; i < t.NumField(); i++ {
+		if n := t.Field(i).Name; n != "XMLName" {
+			out = append(out, fieldInfo{i, n})
+		}
+	}
+	fieldCache.Store(t, out)
+	return out
+}
+
 // render gives a canonical text of a value: XMLName fields are ignored, nil pointers are "nil".
 func render(v reflect.Value, sb *strings.Builder) {
 	switch v.Kind() {
@@ -238,21 +262,17 @@ func render(v reflect.Value, sb *strings.Builder) {
 		render(v.Elem(), sb)
 	case reflect.Struct:
 		sb.WriteByte('{')
-		t := v.Type()
-		for i := 0; i < v.NumField(); i++ {
-			if t.Field(i).Name == "XMLName" {
-				continue
-			}
-			sb.WriteString(t.Field(i).Name)
+		for _, f := range fieldsOf(v.Type()) {
+			sb.WriteString(f.name)
 			sb.WriteByte(':')
-			render(v.Field(i), sb)
+			render(v.Field(f.idx), sb)
 			sb.WriteByte(' ')
 		}
 		sb.WriteByte('}')
 	case reflect.String:
-		fmt.Fprintf(sb, "%q", v.String())
+		sb.WriteString(strconv.Quote(v.String()))
 	case reflect.Bool:
-		fmt.Fprintf(sb, "%v", v.Bool())
+		sb.WriteString(strconv.FormatBool(v.Bool()))
 	case reflect.Slice, reflect.Array:
 		sb.WriteByte('[')
 		for i := 0; i < v.Len(); i++ {
@@ -320,7 +340,14 @@ func Observe(s *style.Style) map[string]string {
 }
 
 // pointers collects the addresses of everything reachable from v through pointers (zero-size targets skipped).
-func pointers(v reflect.Value, out map[uintptr]string, path string) {
+// Paths are recorded only when withPaths is set (the second, explaining pass).
+func pointers(v reflect.Value, out map[uintptr]string, path string, withPaths bool) {
+	sub := func(p, f string) string {
+		if withPaths {
+			return p + f
+		}
+		return ""
+	}
 	switch v.Kind() {
 	case reflect.Ptr:
 		if v.IsNil() {
@@ -332,32 +359,32 @@ func pointers(v reflect.Value, out map[uintptr]string, path string) {
 			}
 			out[v.Pointer()] = path
 		}
-		pointers(v.Elem(), out, path)
+		pointers(v.Elem(), out, path, withPaths)
 	case reflect.Interface:
 		if !v.IsNil() {
-			pointers(v.Elem(), out, path)
+			pointers(v.Elem(), out, path, withPaths)
 		}
 	case reflect.Struct:
-		for i := 0; i < v.NumField(); i++ {
-			pointers(v.Field(i), out, path+"."+v.Type().Field(i).Name)
+		for _, f := range fieldsOf(v.Type()) {
+			pointers(v.Field(f.idx), out, sub(path, "."+f.name), withPaths)
 		}
 	case reflect.Slice:
 		if v.IsNil() {
 			return
 		}
 		if v.Len() > 0 {
-			out[v.Pointer()] = path + "[]"
+			out[v.Pointer()] = sub(path, "[]")
 		}
 		for i := 0; i < v.Len(); i++ {
-			pointers(v.Index(i), out, fmt.Sprintf("%s[%d]", path, i))
+			pointers(v.Index(i), out, sub(path, "[i]"), withPaths)
 		}
 	case reflect.Map:
 		if v.IsNil() {
 			return
 		}
-		out[v.Pointer()] = path + "{}"
+		out[v.Pointer()] = sub(path, "{}")
 		for _, k := range v.MapKeys() {
-			pointers(v.MapIndex(k), out, fmt.Sprintf("%s[%v]", path, k))
+			pointers(v.MapIndex(k), out, sub(path, "[k]"), withPaths)
 		}
 	}
 }
@@ -459,11 +486,11 @@ func snapshotStyle(s *style.Style) *mStyle {
 }
 
 type resolved struct {
-	Elems map[string]string // element -> expected value
+	Elems map[string]string       // element -> expected value
 	Src   map[string]*style.Style // element -> (copy of) the defining style
-	From  map[string]int    // element -> depth of the defining style on the chain (0 = the style itself)
-	Chain []string          // ids visited, nearest first
-	End   string            // "root" | "missing" | "cycle"
+	From  map[string]int          // element -> depth of the defining style on the chain (0 = the style itself)
+	Chain []string                // ids visited, nearest first
+	End   string                  // "root" | "missing" | "cycle"
 }
 
 // resolve is the reference: walk basedOn with a visited set; per element the first definition met.
